@@ -338,3 +338,24 @@ let () =
                 else spec_ketose_test (explode name) (nat_of_int (int_of_string lactole)) in
         implode (add_edge k (explode con))
     | _ -> "BADARGS")
+
+(* ------------------------------------------------------------------ modifications (C04) *)
+let () =
+  register "modcheck" (function
+    | out :: base :: rest ->
+        let rec pairs = function
+          | p :: f :: r -> (match sem_str (explode f) with
+                            | Some fm -> (match pairs r with Some l -> Some ((nat_of_int (int_of_string p), fm) :: l) | None -> None)
+                            | None -> None)
+          | [] -> Some []
+          | _ -> None in
+        (match sem_str (explode out), sem_str (explode base), pairs rest with
+         | Some o, Some b, Some mods ->
+             let b' = strip_h b in
+             (match modify_all b' b' mods with
+              | Some e -> if same_molecule o e then "1" else "0"
+              | None -> "NOSPEC")
+         | None, _, _ -> "ERR-out"
+         | _, None, _ -> "ERR-base"
+         | _, _, None -> "ERR-frag")
+    | _ -> "BADARGS")
